@@ -36,12 +36,12 @@ static Input gen_l1(int n) {
     std::vector<std::vector<FV>> centers(k, std::vector<FV>(dim));
     for (auto& c : centers) for (auto& x : c) x = rnd(0, spread);
     std::set<std::vector<FV>> seen;
-    for (int i = 0; i < n; ++i) {
+    for (int tries = 0; tries < 400 && static_cast<int>(in.coords.size()) < n; ++tries) {
       std::vector<FV> p = centers[rnd(0, k - 1)];
       for (auto& x : p) x += rnd(0, 1) * rnd(0, 2);
-      if (!seen.insert(p).second) { --i; if (seen.size() > 200) break; continue; }
-      in.coords.push_back(p);
+      if (seen.insert(p).second) in.coords.push_back(p);
     }
+    if (static_cast<int>(in.coords.size()) < n) continue;   // not enough distinct points around these centers: draw again
     in.D.assign(n, std::vector<FV>(n, 0));
     for (int i = 0; i < n; ++i) for (int j = 0; j < n; ++j) in.D[i][j] = L1()(in.coords[i], in.coords[j]);
     if (is_metric(in)) return in;
